@@ -97,7 +97,13 @@ func main() {
 	}
 	w := vt.NewWriter(*out, *prop, *shards)
 	c := &ctx{w: w, r: vt.NewRng(*seed), tier: *tier, n: *n, cfg: *cfg, extra: *extra}
-	before, berr := battery()
+	// cold-start recorders make the process's FIRST library calls themselves (concurrently): no battery in front of them
+	cold := strings.HasSuffix(*prop, "cold")
+	var before string
+	var berr error
+	if !cold {
+		before, berr = battery()
+	}
 	// a recording takes seconds; one that has not ended after a quarter of an hour (thorough: an hour) contains a
 	// library call that does not return. That is an observation about the code: it is logged as an event every trace
 	// specification rejects, and the process ends.
@@ -129,6 +135,9 @@ func main() {
 	}
 	// whatever the recording did, it must not have left anything behind in the library's package-level state
 	after, aerr := battery()
+	if cold {
+		before = after
+	}
 	if before != after || berr != nil || aerr != nil {
 		c.w.Emit(vt.Ev{"op": "globalstate", "cfg": c.cfg, "before": before, "after": after, "errbefore": fmt.Sprint(berr), "errafter": fmt.Sprint(aerr),
 			"msg": "fixed calls on fixed inputs / exported values differ before and after the recording: the library's package-level state was modified"})
